@@ -21,9 +21,10 @@ theorem t_OnOff : (lefEnums.lookup "LefOnOff").isSome = true := by decide +kerne
 theorem t_Clearance : (lefEnums.lookup "LefClearanceStyle").isSome = true := by decide +kernel
 
 /-! one-statement steps of `libBody` -/
-theorem lb_version (f : Nat) (ver : Dec) (lib : Lib) (d : Dec) (T : List Tok) (h : decOk d = true) (hv : versionOk d = true) :
+theorem lb_version (f : Nat) (ver : Dec) (lib : Lib) (d : Dec) (T : List Tok) (h : decOk d = true) (hv : versionOk d = true)
+    (hg : (lib.namesCaseSensitive.isSome || lib.macros.any (·.source.isSome)) = false) :
     libBody (f + 1) ver lib (kw "Version" :: num d :: semiTok :: T) = libBody f d { lib with version := some d } T := by
-  rw [libBody]; simp [peekKey_kw "Version" _ k_Version, number_num d _ h, semi_semiTok, hv]
+  rw [libBody]; simp [peekKey_kw "Version" _ k_Version, number_num d _ h, semi_semiTok, hv, hg]
 
 theorem lb_ncs (f : Nat) (ver : Dec) (lib : Lib) (e : String) (T : List Tok) (h : isVariant "LefOnOff" e = true) (hv : v5p4.lt ver = false) :
     libBody (f + 1) ver lib (kw "NamesCaseSensitive" :: en "LefOnOff" e :: semiTok :: T) = libBody f ver { lib with namesCaseSensitive := some e } T := by
@@ -235,13 +236,14 @@ theorem lb_exts (ver : Dec) (T : List Tok) : ∀ (vs : List (Str × Str)) (lib :
 
 /-! optional statements -/
 def verOk (d : Dec) : Bool := decOk d && versionOk d
-theorem lb_opt_version (f : Nat) (ver : Dec) (lib : Lib) (o : Option Dec) (T : List Tok) (hp : lib.version = none) (h : optOk o verOk = true) :
+theorem lb_opt_version (f : Nat) (ver : Dec) (lib : Lib) (o : Option Dec) (T : List Tok) (hp : lib.version = none) (h : optOk o verOk = true)
+    (hg : (lib.namesCaseSensitive.isSome || lib.macros.any (·.source.isSome)) = false) :
     libBody (f + st o) ver lib (opt o (fun v => [kw "Version", num v, semiTok]) ++ T) = libBody f (o.getD ver) { lib with version := o } T := by
   cases o with
   | none => cases lib; simp only at hp; subst hp; simp [st, opt]
   | some d =>
     simp only [optOk, verOk, Bool.and_eq_true] at h
-    simpa [st, opt] using lb_version f ver lib d T h.1 h.2
+    simpa [st, opt] using lb_version f ver lib d T h.1 h.2 hg
 theorem lb_opt_ncs (f : Nat) (ver : Dec) (lib : Lib) (o : Option String) (T : List Tok) (hp : lib.namesCaseSensitive = none)
     (h : optOk o (isVariant "LefOnOff") = true) (hv : o.isSome = true → v5p4.lt ver = false) :
     libBody (f + st o) ver lib (opt o (fun e => [kw "NamesCaseSensitive", en "LefOnOff" e, semiTok]) ++ T) = libBody f ver { lib with namesCaseSensitive := o } T := by
@@ -444,7 +446,7 @@ theorem libBody_w (l : Lib) (h : libOk l = true)
     ⟨F - (st version + st ncs + st nowire + st busbit + st divider + st units + st mfg + st ums + st clearance + stl propDefs +
       (if fixedMask then 1 else 0) + vias.length + sites.length + macros.length + exts.length + 1), by omega⟩
   simp only [wLibToks]
-  rw [lb_opt_version _ _ _ _ _ rfl h1]; dsimp only
+  rw [lb_opt_version _ _ _ _ _ rfl h1 rfl]; dsimp only
   rw [lb_opt_ncs _ _ _ _ _ rfl h2 hn]; dsimp only
   rw [lb_opt_nowire _ _ _ _ _ rfl h3]; dsimp only
   rw [lb_opt_busbit _ _ _ _ _ rfl]; dsimp only
